@@ -172,7 +172,9 @@ structure Loop where
   seen : List (List Stage) := []
 
 /-- `next_pipe = pipes_time_received.popleft(); …set(); state[next_pipe] = out_state_started` (if the deque is not
-empty) -/
+empty). The source's `if number_send_out_state_arguments: next_pipe.send(arguments)` in between is dead code (only
+handlers without such arguments are ever queued) and, like every mediator → worker argument transfer, has no effect
+on the protocol state. -/
 def startNext (L : Loop) : Except Err Loop :=
   match L.deque with
   | [] => .ok L
